@@ -82,7 +82,9 @@ class Emit:
             return number(p[1])
         if k == "pctor":
             key = "::".join(p[1])
-            name = self.pctor.get(key) or self.pctor.get(p[1][-1])
+            name = self.pctor.get(key) if key in self.pctor else self.pctor.get(p[1][-1])
+            if name == "" and len(p[2]) == 1:
+                return self.pat(p[2][0])
             if name is None:
                 raise Unsupported("pattern constructor " + key)
             if p[2] and name != "none":
@@ -178,6 +180,16 @@ class Emit:
         if k == "array":
             return "[" + ", ".join(self.e(y) for y in x[1]) + "]"
         if k == "macro":
+            if x[1] == "matches" and len(x[2]) == 2:
+                def topat(y):
+                    if y[0] == "call" and y[1][0] == "path":
+                        if y[1][1][-1] in self.cfg.get("transparent_ctors", ()):
+                            return topat(y[2][0])
+                        return ("pctor", y[1][1], [topat(z) for z in y[2]])
+                    if y[0] == "path":
+                        return ("pctor", y[1], []) if (len(y[1]) > 1 or y[1][0][0].isupper()) else ("pvar", y[1][0])
+                    raise Unsupported("pattern of matches!")
+                return "(match %s with\n    | %s => true\n    | _ => false)" % (self.e(x[2][0]), self.pat(topat(x[2][1])))
             if x[1] == "vec":
                 return "[" + ", ".join(self.e(y) for y in x[2]) + "]"
             if x[1] in self.cfg.get("macro", {}):
@@ -1207,6 +1219,16 @@ KERNELS += [
          call={"Universal2DBox::too_far": "too_far sqrt (toU {0}) (toU {1})", "sutherland_hodgman_clip": "sutherland_hodgman_clip {0} {1}"},
          mutmethods={"rotate_mut": "cbox_rotate_mut {0} {1}", "gen_vertices": "cbox_gen_vertices cos sin {0}"}),
 ]
+
+IDLE = [
+    dict(group="Idle", name="idle_lookup_" + nm, file=f, impl=impl, fn="lookup",
+         sig="(epochs : Option (List (Nat × Nat))) (maxIdle : Nat) (self : Nat) (attr_scene attr_last : Nat) : Bool",
+         fieldpath={"attributes.scene_id": "attr_scene", "attributes.last_updated_epoch": "attr_last", "attributes.opts": "()"},
+         method={"current_epoch_with_scene": "(epoch_current epochs {1}).1", "unwrap": "Option.getD {0} 0", "baked": "epoch_baked epochs maxIdle {1} {2}"},
+         pctor={lk + "::IdleLookup": "", "TrackStatus::Wasted": "Status.wasted"}, transparent_ctors=("Ok",), idle_ctor=lk + "::IdleLookup")
+    for nm, f, impl, lk in [("sort", "trackers/sort.rs", r"impl LookupRequest<SortAttributes, Universal2DBox> for SortLookup \{", "SortLookup"),
+                            ("visual", "trackers/visual_sort/track_attributes.rs", r"impl LookupRequest<VisualAttributes, VisualObservationAttributes> for VisualSortLookup \{", "VisualSortLookup")]
+]
 # decision kernels over Nat / Rat (no field structure needed)
 GAL_METHOD = {"feature": "featureOf {0}", "attr": "{0}", "as_ref": "{0}", "unwrap": "{0}", "visual_quality": "quality {0}",
                  "partial_cmp": "cmpQ {0} {1}", "len": "List.length {0}", "iter": "{0}", "filter": "List.filter {1} {0}", "count": "List.length {0}"}
@@ -1313,7 +1335,7 @@ LOGIC = [
 def gen(repo, cfgs, header, footer):
     out, unread = [header], []
     for c in cfgs:
-        if c in LOGIC or c in TRACK or c in VOTING or c in TRACK_DIST or c in STORE or c in RECORDS or c in AUTOWASTE or c in VISVOTE or c in STORE_MAP or c in STORE_ADD or c in SORTVOTE:
+        if c in LOGIC or c in TRACK or c in VOTING or c in TRACK_DIST or c in STORE or c in RECORDS or c in AUTOWASTE or c in VISVOTE or c in STORE_MAP or c in STORE_ADD or c in SORTVOTE or c in IDLE:
             c = dict(c, scalar=c.get("scalar", "Rat"))
         path = os.path.join(repo, "src", c["file"])
         try:
@@ -1574,6 +1596,7 @@ def main():
     jobs.append(("LVisVoting.lean", VISVOTE, "import SimVerif.Gen.LBase\nimport SimVerif.Model.Voting\n" + HEADER_L + PRELUDE_VISVOTE, "SimVerif.Gen.L"))
     jobs.append(("LStoreMap.lean", STORE_MAP + STORE_ADD, "import SimVerif.Model.Track\n" + HEADER_L + PRELUDE_STOREMAP, "SimVerif.Gen.L"))
     jobs.append(("LSortVoting.lean", SORTVOTE, "import SimVerif.Gen.LBase\n" + HEADER_L + PRELUDE_SORTVOTE, "SimVerif.Gen.L"))
+    jobs.append(("LIdle.lean", IDLE, "import SimVerif.Gen.LEpoch\nimport SimVerif.Gen.LEpochDb\n" + HEADER_L, "SimVerif.Gen.L"))
     jobs.append(("LTrackDist.lean", TRACK_DIST, "import SimVerif.Gen.LTrack\nimport SimVerif.Model.Track\n" + HEADER_L + PRELUDE_TRACKDIST, "SimVerif.Gen.L"))
     jobs.append(("LConstr.lean", [c for c in LOGIC if c["group"] == "Constr"], HEADER_L + PRELUDE_DEDUP, "SimVerif.Gen.L"))
     jobs.append(("LBase.lean", [], HEADER_L + PRELUDE_BASE + PRELUDE_MAP, "SimVerif.Gen.L"))
